@@ -14,7 +14,7 @@
     EngineLocal's function-level [C07_panicked_node_requeued] covers the re-queueing.
     Proofs: PassPlanProofs.v. *)
 From incr Require Import Base Heap HeapSpec EngineDefs Engine EngineRun EngineWf Spec EngineLemmas EngineLocal
-     PassInv PassProofs PassPlanProofs.
+     EngineInv EngineInvProofs PassInv PassProofs PassPlanProofs PassPlanProofs2.
 
 Theorem C07_static_error_and_retry : forall s x s' e,
   wfb s = true -> ValInv s -> stabilize (failPlan x) false s = Ok (s', Some e) ->
@@ -91,3 +91,36 @@ Proof.
   split; [exact (proj1 ex_pre_hyps)|]. split; [exact (proj2 ex_pre_hyps)|]. split; [exact ex_fpass|].
   split; vm_compute; reflexivity.
 Qed.
+
+(** ** On top of the structural invariant [EngineInv.Inv] (C05): no per-step [wfb] hypothesis *)
+
+(** the invariants at every boundary of a clean ([EngineInv.run_clean]) history of the fragment
+    ([static_op2]) from the empty graph *)
+Theorem C07_history_invariants : forall mh os s,
+  (0 < mh)%nat -> forallb static_op2 os = true -> run_clean (init mh) os = Some s ->
+  Inv s /\ binds s = ∅ /\ ValInv s /\ wfb s = true /\ ObsInv s.
+Proof. exact frag_history_inv. Qed.
+Print Assumptions C07_history_invariants.
+
+(** whatever writes and failures ([EUser] of a single failing node function) the earlier passes
+    of such a history had, every plan-free pass succeeds and ends with every registered node
+    locally consistent and every observer reading the from-scratch value of its node *)
+Theorem C07_history_bindfree : forall mh os1 os2 s',
+  (0 < mh)%nat -> forallb static_op2 (os1 ++ Stabilize [] :: os2) = true ->
+  run_clean (init mh) (os1 ++ Stabilize [] :: os2) = Some s' ->
+  exists s1 s2, run_clean (init mh) os1 = Some s1 /\ step s1 (Stabilize []) = Ok (s2, None) /\
+                consistent s2 = true /\ observers_agree s2 = true /\ Inv s2 /\ ValInv s2.
+Proof. exact history_planfree_pass. Qed.
+Print Assumptions C07_history_bindfree.
+
+(** what a pass of the fragment can return *)
+Theorem C07_static_failPlan_result : forall s x s' e,
+  wfb s = true -> ValInv s -> stabilize (failPlan x) false s = Ok (s', e) -> e = None \/ e = Some (EUser x).
+Proof. exact failPlan_result. Qed.
+Print Assumptions C07_static_failPlan_result.
+
+(** Non-vacuity: [ex_history2] ([ex_ops], a pass in which node 4's function fails, a pass whose
+    plan writes var 0, a plan-free pass) is a clean history of the fragment. *)
+Example C07_history_ex :
+  forallb static_op2 ex_history2 = true /\ exists s', run_clean (init 64) ex_history2 = Some s'.
+Proof. exact ex_history2_clean. Qed.
